@@ -98,6 +98,8 @@ type model struct {
 	keyMemo   map[ssa.Value]string
 	guardMemo map[*ssa.BasicBlock][]atom
 	tloops    map[*ssa.BasicBlock]*tloop
+	initMemo map[*ssa.Alloc]map[*types.Var]ssa.Value // localInit
+
 }
 
 func (m *model) pos(p token.Pos) string { return m.repo.Rel(p) }
@@ -986,6 +988,9 @@ func (m *model) key1(v ssa.Value) string {
 			if u := ssax.Unspill(x); u != ssa.Value(x) {
 				return m.key(u)
 			}
+			if iv := m.localInit(x.X); iv != nil {
+				return m.key(iv) // a field of a local struct that is initialised once and never changes
+			}
 			k := m.key(x.X)
 			if strings.HasPrefix(k, "&") {
 				return k[1:]
@@ -1345,6 +1350,23 @@ func less(a atom, isX, isY func(ssa.Value) bool) bool {
 		return !a.pol && isY(a.av) && isX(a.bv)
 	}
 	return false
+}
+
+// lessEq: atom says X <= Y.
+func lessEq(a atom, isX, isY func(ssa.Value) bool) bool {
+	switch a.op {
+	case "<=":
+		return a.pol && isX(a.av) && isY(a.bv)
+	case "<":
+		// !(Y < X)  ==  X <= Y
+		return !a.pol && isY(a.av) && isX(a.bv)
+	}
+	return false
+}
+
+// atMost: atom says X < Y or X <= Y.
+func atMost(a atom, isX, isY func(ssa.Value) bool) bool {
+	return less(a, isX, isY) || lessEq(a, isX, isY)
 }
 
 // ---------------------------------------------------------------------------
